@@ -45,6 +45,7 @@ UNITS = {
     "c01": {"kind": "exe", "src": ["units/c01_int_arith.cpp"]},
     "c03": {"kind": "exe", "src": ["units/c03_compare_mask.cpp"]},
     "c07": {"kind": "exe", "src": ["units/c07_int_bits.cpp"]},
+    "c06": {"kind": "exe", "src": ["units/c06_convert.cpp"], "aux": {"ref": {"src": "common/ref.cpp", "flags": ["-ffp-contract=off", "-fno-builtin"]}}, "link": ["ref"]},
     "c02": {"kind": "exe", "src": ["units/c02_fp_basic.cpp"], "aux": {"ref": {"src": "common/ref.cpp", "flags": ["-ffp-contract=off", "-fno-builtin"]}}, "link": ["ref"]},
 }
 
@@ -119,6 +120,24 @@ PROPS = {
                 "(size <= 16), all mask pairs (size <= 4 quick, <= 8 thorough); distinct cell = (op,type,arch,mask/operand class,lane,expected value); " + ALL22,
         "assumptions": COMMON_ASSUME + ["from_mask only with bits below size (documented precondition)"],
         "floor": {"quick": 10**7, "thorough": 10**8},
+    },
+    "C06": {
+        "technique": "runtime monitoring: static_cast / memcmp oracle on every lane of every conversion API form; 32-bit sources exhaustive (thorough); 22 architectures",
+        "level_text": "batch_cast, load_as, store_as, broadcast_as and to_float of every observed lane are compared with static_cast whenever the source is representable in the "
+                      "destination; bitwise_cast is compared byte-for-byte for all 100 ordered type pairs and as an involution. 32-bit sources are enumerated completely in the "
+                      "thorough tier (1/509 strided in quick); 64-bit sources come from a lattice around 2^24, 2^31, 2^32, 2^52, 2^53, 2^63, 2^64 (+-3 ulp / +-4) and random bits.",
+        "level_note": "Trusts the compiler's scalar conversions (cvtsi2ss etc.) as reference in round-to-nearest mode. Non-representable sources are not claimed.",
+        "design_ref": "DESIGN.md section 6 C06",
+        "jobs": [
+            {"unit": "c06"},
+            {"unit": "c06", "variant": "native", "tiers": ["thorough"], "args": ["--scale", "0.2"]},
+            {"unit": "c06", "variant": "clang", "tiers": ["thorough"], "args": ["--scale", "0.2"]},
+        ],
+        "rule": "each evaluation = one lane of one conversion compared with static_cast (bitwise_cast: one register compared by memcmp); sources: powers of two +-3ulp/+-4 for "
+                "exponents {0,1,22..24,30..33,51..54,62..64}, quarter-integers, scaled random integers, hostile lattice, random bit patterns, and all/strided 32-bit patterns; "
+                "distinct cell = (API form, From->To, arch, lane, source class); " + ALL22,
+        "assumptions": COMMON_ASSUME + ["conversions only claimed when the source value is representable in the destination type"],
+        "floor": {"quick": 10**7, "thorough": 10**9},
     },
     "C07": {
         "technique": "runtime monitoring: bit-level model on the unsigned image of every lane; value x count exhaustive for 8/16-bit lanes; 22 architectures",
